@@ -3,9 +3,9 @@ NEXT Next
 CONSTANTS
   AreaSet = {"none", "poly", "a4110", "a4120v2"}
   PIdx = {2, 5, 9}
-  VIdx = {1, 3, 5, 7}
+  VIdx = {1, 5, 7}
   PCore = {2, 5, 9}
-  VCore = {1, 3, 5, 7}
+  VCore = {1, 5, 7}
   QSeries = {1000, 11000, 19000}
   QConst = {14000}
   Q0Set = {10000, 17000}
